@@ -73,7 +73,8 @@ def cases(draw, depth):
             other = draw(st.sampled_from(idkeys))
             tgt = other if draw(st.booleans()) else ("call", "tolower", (), (other,))
         amap.append([to_json(k), to_json(tgt)])
-    return {"term": to_json(t), "map": amap}
+    reuse = draw(st.sampled_from([0] * 11 + [40, 300, 700]))
+    return {"term": to_json(t), "map": amap, "reuse": reuse}
 
 
 def bound_vars(t):
@@ -133,6 +134,39 @@ def check_case(case):
         return ("rewriter-exception-external-instances", "%r map=%r -> %s" % (text, str_map, e))
     if out2 != out:
         return ("external-instances-differ", "%r map=%r" % (text, str_map))
+    if case.get("reuse"):
+        return check_reuse(case, t, amap, str_map, text)
+    return None
+
+
+FILLER = ["a eq %d", "b lt %d and c gt 1", "name in ('x', 'y', '%d')", "contains(name, 'k%d')", "not (x eq %d)",
+          "price add %d gt qty", "tags/any(e: e/name eq 't%d')", "a eq %d or b eq 2 or c eq 3"]
+
+
+def check_reuse(case, t, amap, str_map, text):
+    """One rewriter instance serves a long series of short-lived trees (thousands of nodes in all)
+    between two rewrites of the case's own tree: every answer must be the one a fresh instance gives."""
+    from odata_query.rewrite import AliasRewriter
+    rw = AliasRewriter(dict(str_map))
+    exp = treeref.substitute(t, amap)
+    n = case["reuse"]
+    try:
+        first = decode(rw.visit(lib.parse(text)))
+        for i in range(n):
+            ft = decode(lib.parse(FILLER[i % len(FILLER)] % i))
+            if not in_domain(ft, amap):
+                continue
+            got = decode(rw.visit(lib.parse(printer.render(ft))))
+            want = treeref.substitute(ft, amap)
+            if got != want:
+                return ("reused-rewriter:filler-differs", "%r map=%r: after %d other trees, %r -> %r, expected %r" % (
+                    text, str_map, i, printer.render(ft), got, want))
+        last = decode(rw.visit(lib.parse(text)))
+    except Exception as e:
+        return ("reused-rewriter:exception:" + lib.exc_bucket(e), "%r map=%r -> %s: %s" % (text, str_map, type(e).__name__, e))
+    if first != exp or last != exp:
+        return ("reused-rewriter:differs", "%r map=%r after %d other trees: first=%r last=%r expected=%r" % (
+            text, str_map, n, first, last, exp))
     return None
 
 
